@@ -97,20 +97,58 @@ the same product molecule are joined by a path of bonds of that graph — no pro
 theorem C16_components_connected (p : WMol) : ∀ c ∈ components p, ∀ a ∈ c, ∀ b ∈ c, Conn p a b :=
   components_connected p
 
-/-- **T1d, full statement** (not proved): bonded atoms are always in the same product molecule, i.e. together with
-`C16_components_connected` the product molecules are exactly the connected components.  What is missing is the proof
-that `natoms` relaxation passes always reach the fixed point (the smallest label travels one bond per pass); the
-correspondence check compares the split with RDKit's `GetMolFrags` on every product, and the driver reports
-`componentsClosed` for every product (the harness insists on `true`). -/
-def C16_components_closed_full : Prop :=
-  ∀ p : WMol, p.wf = true → ∀ e ∈ p.bonds, ∃ c ∈ components p, e.a ∈ c ∧ e.b ∈ c
-
-/-- **T1d (proved part)**: for every well-formed graph on which the labelling has reached its fixed point (decidable:
-`componentsClosed`, evaluated by the driver on every product), the two ends of every bond are in the same product
-molecule. -/
-theorem C16_components_closed_partial (p : WMol) (hw : p.wf = true) (hfix : componentsClosed p = true) :
+/-- **T1d, the product molecules are the connected components**: for every well-formed graph the two ends of every
+bond are in the same product molecule; with `C16_components_connected` and `C16_components_partition`: two atoms are in
+the same product molecule exactly when a path of bonds joins them.  (The labelling always reaches its fixed point:
+every relaxation pass that changes something lowers the sum of the labels, which starts below `natoms²`.) -/
+theorem C16_components_closed (p : WMol) (hw : p.wf = true) :
     ∀ e ∈ p.bonds, ∃ c ∈ components p, e.a ∈ c ∧ e.b ∈ c :=
-  components_closed_of_fixpoint p hw hfix
+  components_closed p hw
+
+/-- **T1e**: two atoms are put into the same product molecule exactly when they are connected by bonds (for atoms of
+the molecule). -/
+theorem C16_same_molecule_iff_connected (p : WMol) (hw : p.wf = true) (a b : Nat) (ha : a < p.natoms) (hb : b < p.natoms) :
+    (∃ c ∈ components p, a ∈ c ∧ b ∈ c) ↔ Conn p a b := by
+  constructor
+  · rintro ⟨c, hc, hac, hbc⟩
+    exact C16_components_connected p c hc a hac b hbc
+  · intro hconn
+    -- every atom is in some product molecule; walking along the path never leaves it
+    have hin : ∀ x, x < p.natoms → ∃ c ∈ components p, x ∈ c := by
+      intro x hx
+      have hp := (C16_components_partition p).mem_iff (a := x)
+      have : x ∈ (components p).flatten := hp.2 (List.mem_range.2 hx)
+      obtain ⟨c, hc, hxc⟩ := List.mem_flatten.1 this
+      exact ⟨c, hc, hxc⟩
+    -- two product molecules sharing an atom are the same list (the partition has no repeated atom)
+    have huniq : ∀ c1 ∈ components p, ∀ c2 ∈ components p, ∀ x, x ∈ c1 → x ∈ c2 → c1 = c2 := by
+      intro c1 h1 c2 h2 x hx1 hx2
+      simp only [components, groupsBy, List.mem_map] at h1 h2
+      obtain ⟨r1, _, rfl⟩ := h1
+      obtain ⟨r2, _, rfl⟩ := h2
+      have e1 := (List.mem_filter.1 hx1).2
+      have e2 := (List.mem_filter.1 hx2).2
+      simp only [beq_iff_eq] at e1 e2
+      rw [← e1, ← e2]
+    induction hconn with
+    | refl => obtain ⟨c, hc, hac⟩ := hin a ha; exact ⟨c, hc, hac, hac⟩
+    | @step b' c' _ hadj ih =>
+      obtain ⟨e, he, hj⟩ := hadj
+      have hwf := hw
+      simp only [WMol.wf, Bool.and_eq_true, List.all_eq_true, decide_eq_true_eq, bne_iff_ne, ne_eq] at hwf
+      obtain ⟨⟨hea, heb⟩, _⟩ := hwf.1 e he
+      have hsp := (joins_iff e b' c').1 hj
+      have hb' : b' < p.natoms := by unfold SamePair at hsp; omega
+      obtain ⟨c1, hc1, hac1, hbc1⟩ := ih hb'
+      obtain ⟨c2, hc2, h2a, h2b⟩ := C16_components_closed p hw e he
+      have hb2 : b' ∈ c2 ∧ c' ∈ c2 := by
+        unfold SamePair at hsp
+        rcases hsp with ⟨h1, h2⟩ | ⟨h1, h2⟩
+        · rw [← h1, ← h2]; exact ⟨h2a, h2b⟩
+        · rw [← h1, ← h2]; exact ⟨h2b, h2a⟩
+      have : c1 = c2 := huniq c1 hc1 c2 hc2 b' hbc1 hb2.1
+      subst this
+      exact ⟨c1, hc1, hac1, hb2.2⟩
 
 /-! ## T2 — every edit does exactly what it declares, and nothing else -/
 
